@@ -8,6 +8,7 @@ import (
 	"context"
 	"fmt"
 	"strings"
+	"testing/fstest"
 	"time"
 
 	vuego "github.com/titpetric/vuego"
@@ -166,6 +167,8 @@ func runC11(r *Run, replay *Case) {
 			r.Add(c11TypedEval(replay.Input["tpl"].(string), fromVal(replay.Input["x"].(map[string]any))))
 		case "bytes":
 			r.Add(c11BytesEval([]byte(replay.Input["src"].(string)), replay.Input["fm"] == true))
+		case "fm-shape":
+			r.Add(c11BytesEval([]byte(replay.Input["src"].(string)), false))
 		}
 		return
 	}
@@ -189,6 +192,62 @@ func runC11(r *Run, replay *Case) {
 		}
 	}
 	c11Builtins(r)
+	// front-matter shapes: files assembled from lines that are, begin with, or merely resemble the `---` delimiter (the loader scans for the
+	// closing delimiter by hand); every file of up to 3 such lines exhaustively, longer ones at random
+	fmLines := []string{"---", "----------------", "--- steps", "---> build", "a: 1", "", "<p>{{ a }}</p>", " ---", "---\r", "title: x --- y"}
+	var shapes [][]string
+	for _, a := range fmLines {
+		for _, b := range fmLines {
+			shapes = append(shapes, []string{"---", a, b})
+			for _, c := range fmLines {
+				shapes = append(shapes, []string{a, b, c})
+			}
+		}
+	}
+	nShapes := 600
+	if r.Thorough() {
+		nShapes = 20000
+	}
+	for i := 0; i < nShapes; i++ {
+		var ls []string
+		for k := 4 + r.Rng.Intn(4); k > 0; k-- {
+			ls = append(ls, fmLines[r.Rng.Intn(len(fmLines))])
+		}
+		if r.Rng.Intn(2) == 0 {
+			ls = append([]string{"---"}, ls...)
+		}
+		shapes = append(shapes, ls)
+	}
+	hangs := 0
+	for _, ls := range shapes {
+		if hangs >= 2 {
+			break // every hang leaves a spinning goroutine behind: two witnesses are enough
+		}
+		src := strings.Join(ls, "\n") + "\n"
+		c := &Case{Name: "fm-shape", Input: map[string]any{"stream": "fm-shape", "src": src}, Key: "fmshape:" + src, Tags: []string{"stream:fm-shapes"}, Oracle: &Verdict{OK: true}}
+		done := make(chan string, 1)
+		go func() {
+			defer func() {
+				if e := recover(); e != nil {
+					done <- "panic: " + fmt.Sprint(e)
+				}
+			}()
+			var buf bytes.Buffer
+			mfs := fstest.MapFS{"p.vuego": &fstest.MapFile{Data: []byte(src)}}
+			_ = vuego.NewFS(mfs).Load("p.vuego").Fill(map[string]any{"a": 1}).Render(context.Background(), &buf)
+			done <- ""
+		}()
+		select {
+		case msg := <-done:
+			if msg != "" {
+				c.Oracle = &Verdict{OK: false, Class: "panic:fm-shape", Detail: fmt.Sprintf("%q: %s", src, msg)}
+			}
+		case <-time.After(3 * time.Second):
+			hangs++
+			c.Oracle = &Verdict{OK: false, Class: "hang:fm-shape", Detail: fmt.Sprintf("loading %q did not return within 3s", src)}
+		}
+		r.Add(c)
+	}
 	n := 3000
 	if r.Thorough() {
 		n = 150000
